@@ -94,16 +94,15 @@ var BytesSliceFunc = function.New(&function.Spec{
 			)
 		}
 
-		end := offset + length
-
-		if end > len(*bufPtr) {
+		// (compare without adding first: offset + length can overflow)
+		if length > len(*bufPtr)-offset {
 			return cty.NilVal, fmt.Errorf(
 				"offset %d + length %d is greater than total buffer length %d",
 				offset, length, len(*bufPtr),
 			)
 		}
 
-		return BytesVal((*bufPtr)[offset:end]), nil
+		return BytesVal((*bufPtr)[offset : offset+length]), nil
 	},
 })
 
